@@ -121,3 +121,65 @@ func compactJSON(s string) string {
 	}
 	return b.String()
 }
+
+// reporterReuse: ONE text reporter and ONE JSON rendering path used over the life of a histogram, as `report -every`
+// does: rendered before any result was added ("also when no result has been added yet"), after some, after all. Each
+// rendering must show the counts the histogram holds at that moment.
+func reporterReuse(c *run.Ctx, s *kit.Summary, r *kit.Rng) {
+	n := c.N(120, 2500)
+	for i := 0; i < n; i++ {
+		hc := genHistCase(r, true)
+		if len(hc.Lats) == 0 {
+			continue
+		}
+		h := &vegeta.Histogram{}
+		for _, b := range hc.Buckets {
+			h.Buckets = append(h.Buckets, time.Duration(b))
+		}
+		rep := vegeta.NewHistogramReporter(h)
+		counts := make([]uint64, len(hc.Buckets))
+		stops := map[int]bool{0: true, len(hc.Lats): true, 1 + r.Pick(len(hc.Lats)): true}
+		s.Case(fmt.Sprint("reporter-reuse:", i), true)
+		s.Count("render:one_reporter_over_the_life_of_a_histogram")
+		bad := false
+		for k := 0; k <= len(hc.Lats) && !bad; k++ {
+			if stops[k] {
+				var buf bytes.Buffer
+				var err error
+				p, _ := kit.Recover(func() { err = rep.Report(&buf) })
+				if p || err != nil {
+					s.Violate(kit.Violation{Kind: "hist_text_reused_reporter", What: "a histogram reporter used a second time failed or panicked",
+						Input: map[string]interface{}{"buckets": hc.Buckets, "latencies": hc.Lats, "rendered_after": k}})
+					bad = true
+					break
+				}
+				_, rows := parseHistText(buf.Bytes())
+				ok := len(rows) == len(counts)
+				for q := 0; ok && q < len(rows); q++ {
+					if rows[q][2] != fmt.Sprint(counts[q]) {
+						ok = false
+					}
+				}
+				if !ok {
+					var got []string
+					for _, row := range rows {
+						got = append(got, row[2])
+					}
+					s.Violate(kit.Violation{Kind: "hist_text_reused_reporter", What: "the text rendering of a reporter that was already used once (before any / some results were added) does not show the histogram's counts",
+						Input:    map[string]interface{}{"buckets": hc.Buckets, "latencies": hc.Lats, "rendered_after": k},
+						Expected: fmt.Sprint(counts), Observed: fmt.Sprint(got)})
+					bad = true
+				}
+			}
+			if k < len(hc.Lats) {
+				l := hc.Lats[k]
+				h.Add(&vegeta.Result{Latency: time.Duration(l)})
+				for b := range hc.Buckets {
+					if l >= hc.Buckets[b] && (b == len(hc.Buckets)-1 || l < hc.Buckets[b+1]) {
+						counts[b]++
+					}
+				}
+			}
+		}
+	}
+}
